@@ -536,7 +536,7 @@ func (vc *VC) havocCall(s *State, call *ast.CallExpr, why string, sig *types.Sig
 	res := make([]*Term, sig.Results().Len())
 	for i := range res {
 		t := sig.Results().At(i).Type()
-		res[i] = vc.loaded(s, t, Fresh("hv.res", sortOf(t)), "res")
+		res[i] = vc.loadedDeep(s, t, Fresh("hv.res", sortOf(t)), "res")
 	}
 	return res
 }
@@ -815,7 +815,7 @@ func (vc *VC) applySpecNoBody(s *State, call *ast.CallExpr, key string, spec *Fu
 			}
 			res[i] = vc.loaded(s, t, App(fmt.Sprintf("fn.%s.r%d", smtName(shortKey(key)), i), sortOf(t), all...), "res")
 		} else {
-			res[i] = vc.loaded(s, t, Fresh("res."+lastSeg(key), sortOf(t)), "res")
+			res[i] = vc.loadedDeep(s, t, Fresh("res."+lastSeg(key), sortOf(t)), "res")
 		}
 		post.objVals[rv] = res[i]
 		if rv.Name() != "" && rv.Name() != "_" {
